@@ -120,7 +120,15 @@ def leaf_alphabet(reduced=False):
 REJECTS = [('object', lambda: object()), ('complex', lambda: 1 + 2j),
            ('bytes', lambda: b'x'), ('hugeint', lambda: 2 ** 64),
            ('intkey', lambda: {1: 2}), ('tuplekey', lambda: {(1,): 2}),
-           ('npstrkey', lambda: {np.str_('a'): 1})]
+           ('npstrkey', lambda: {np.str_('a'): 1}),
+           # callable, but neither functions nor processes
+           ('functor', lambda: _Functor()), ('class', lambda: _Functor),
+           ('units-registry', lambda: units)]
+
+
+class _Functor:
+    def __call__(self):
+        return 1
 
 
 def normal_form(x):
